@@ -10,6 +10,8 @@ pub enum Family {
     C02,
     C03,
     C04,
+    /// C04 by enumeration: every completion order and every immediate / deferred mix of 2..4 requests
+    C04X,
     C05,
     C06,
     C07,
@@ -44,6 +46,7 @@ impl Family {
             "C10C" => Family::C10C,
             "C03" => Family::C03,
             "C04" => Family::C04,
+            "C04X" => Family::C04X,
             "C05" => Family::C05,
             "C06" => Family::C06,
             "C07" => Family::C07,
@@ -70,6 +73,7 @@ impl Family {
             Family::C10C => "C10C",
             Family::C03 => "C03",
             Family::C04 => "C04",
+            Family::C04X => "C04X",
             Family::C05 => "C05",
             Family::C06 => "C06",
             Family::C07 => "C07",
@@ -96,6 +100,7 @@ pub const ALL_FAMILIES: &[Family] = &[
     Family::C10C,
     Family::C03,
     Family::C04,
+    Family::C04X,
     Family::C05,
     Family::C06,
     Family::C07,
@@ -121,6 +126,7 @@ pub fn generate(f: Family, ch: &mut Choices) -> Plan {
         Family::C10C => gen_c10c(ch),
         Family::C03 => gen_c03(ch),
         Family::C04 => gen_c04(ch),
+        Family::C04X => gen_c04x(ch),
         Family::C05 => gen_outbound(OutKind::C05, ch),
         Family::C06 => gen_outbound(OutKind::C06, ch),
         Family::C07 => gen_c07(ch),
@@ -209,6 +215,8 @@ pub fn base_plan(family: &'static str, role: Role, ch: &mut Choices) -> Plan {
         horizon_ms: 2_500,
         conns: 1,
         tags: Vec::new(),
+        gate_order: Vec::new(),
+        immediate_mask: Vec::new(),
     }
 }
 
@@ -341,6 +349,31 @@ fn gen_c03(ch: &mut Choices) -> Plan {
 fn gen_c04(ch: &mut Choices) -> Plan {
     let mut p = gen_c03(ch);
     p.family = "C04";
+    // with and without write back-pressure episodes
+    match ch.choose(3) {
+        0 => {}
+        1 => {
+            p.faults.p_wr_stall = *ch.pick(&[10u32, 40]);
+            p.cfg.wr_hw = *ch.pick(&[64usize, 16 * 1024 - 24]);
+            p.cfg.wr_lw = if p.cfg.wr_hw == 64 { 16 } else { 512 + 24 };
+        }
+        _ => {
+            // every write is granted a few bytes at a time
+            p.faults.short_write = true;
+            p.cfg.wr_hw = 64;
+            p.cfg.wr_lw = 16;
+        }
+    }
+    // MQTT 5 servers: AUTH requests are answered by the control service with AUTH, in order with the rest
+    if p.role == Role::S5 && ch.chance(1, 3) {
+        let n = 1 + ch.choose(2);
+        for _ in 0..n {
+            let at = ch.choose(p.peer.script.len() as u32 + 1) as usize;
+            let a = Pkt::Auth(rc::Disconnect { code: 0x18, props: vec![(21, PropVal::Str("m".into()))] });
+            // (never between a QoS 2 publish and a PUBREL that immediately follows it in the script: positions are free)
+            p.peer.script.insert(at, step(a, Ver::V5, Pre::Connected));
+        }
+    }
     p
 }
 
@@ -1830,6 +1863,75 @@ fn gen_c16x(ch: &mut Choices) -> Plan {
         Pkt::Publish(rc::Publish { dup: false, qos: 1, retain: false, topic: "probe".into(), pid: Some(0x6001), props: Vec::new(), payload: vec![1] })
     };
     plan.peer.script.push(step(probe, ver, Pre::Connected));
+    plan.ending = Ending::Settle;
+    plan
+}
+
+
+// ------------------------------------------------------------------------------------------
+// C04X: every completion order x every immediate / deferred mix of 2..4 concurrent requests
+
+/// points per request set: sum over n = 2..4 of n! * 2^n, for each of the four roles
+pub const C04X_PER_SET: u64 = 4 * (2 * 4 + 6 * 8 + 24 * 16);
+
+/// Point `r` (< C04X_PER_SET) -> leading draws [role, n - 2, permutation index, mask].
+pub fn c04x_point(mut r: u64) -> Vec<u32> {
+    let per_role = C04X_PER_SET / 4;
+    let role = r / per_role;
+    r %= per_role;
+    for (n, fact) in [(2u64, 2u64), (3, 6), (4, 24)] {
+        let block = fact * (1 << n);
+        if r < block {
+            return vec![role as u32, (n - 2) as u32, (r / (1 << n)) as u32, (r % (1 << n)) as u32];
+        }
+        r -= block;
+    }
+    unreachable!("c04x_point out of range")
+}
+
+/// k-th permutation of 0..n (factoradic).
+pub fn nth_permutation(n: usize, mut k: u32) -> Vec<u32> {
+    let mut items: Vec<u32> = (0..n as u32).collect();
+    let mut out = Vec::new();
+    for i in (1..=n).rev() {
+        let f: u32 = (1..i as u32).product();
+        let j = (k / f) as usize;
+        k %= f;
+        out.push(items.remove(j.min(items.len() - 1)));
+    }
+    out
+}
+
+fn gen_c04x(ch: &mut Choices) -> Plan {
+    let role = C16X_ROLES[ch.choose(4) as usize];
+    let n = 2 + ch.choose(3) as usize;
+    let perm = ch.choose(24);
+    let mask = ch.choose(16);
+    let ver = role.ver();
+    let mut plan = base_plan("C04X", role, ch);
+    plan.cfg.min_chunk = 32 * 1024;
+    // the request set: drawn from the set's own seed, identical for every point of the set
+    for i in 0..n as u32 {
+        let wctl = if role.is_server() { 12 } else { 0 };
+        let pkt = match ch.weighted(&[40, 25, wctl, wctl, wctl]) {
+            0 => Pkt::Publish(mk_publish(ver, ch, i, 1, Some(1 + i as u16), 3)),
+            1 => Pkt::Publish(mk_publish(ver, ch, i, 2, Some(1 + i as u16), 3)),
+            2 => Pkt::Subscribe(rc::Subscribe { pid: 1 + i as u16, props: Vec::new(), filters: vec![(format!("f/{i}"), 1)] }),
+            3 => Pkt::Unsubscribe(rc::Unsubscribe { pid: 1 + i as u16, props: Vec::new(), filters: vec![format!("f/{i}")] }),
+            _ => Pkt::PingReq,
+        };
+        plan.peer.script.push(step(pkt, ver, Pre::Connected));
+    }
+    let fact: u32 = (1..=n as u32).product();
+    plan.gate_order = nth_permutation(n, perm % fact);
+    plan.immediate_mask = (0..n).map(|k| mask & (1 << k) != 0).collect();
+    plan.tags.push(format!("enum:order{:?}:mask{:0w$b}", plan.gate_order, mask % (1 << n), w = n));
+    // with and without write back-pressure episodes
+    if ch.chance(1, 3) {
+        plan.faults.p_wr_stall = 30;
+        plan.cfg.wr_hw = 64;
+        plan.cfg.wr_lw = 16;
+    }
     plan.ending = Ending::Settle;
     plan
 }
